@@ -836,3 +836,43 @@ def column_agreement(cx):
         ('Log iff the channel has decades', "AT = 'Log' if BS[R].amplification_type(C)[0] else 'Linear'"),
         ('amplification type written', "T.at[R, C + ' Amp. Type'] = AT"),
     ], ['T', 'C', 'R', 'BS', 'AT'], fixed={'T': w.params[0], 'BS': w.params[1]})
+
+
+def about_and_cli(cx):
+    """The About sheet and the command line wrapper: fixed rows first, then the caller's extra rows in
+    their order; one column `Value`, index `Keyword`; every command line option reaches run() under its name."""
+    fn = Fn(cx, 'excel_ui.generate_about_table')
+    inventory(fn, 'TABLE', [
+        ('fixed rows: version, date, time (keywords)', "KW = ['FlowCal version', 'Date of analysis', 'Time of analysis']"),
+        ('fixed rows (values)', "VL = [FlowCal.__version__, time.strftime('%Y/%m/%d'), time.strftime('%I:%M:%S%p')]"),
+        ('extra rows in the caller\'s order', 'for K, V in six.iteritems(extra_info):'),
+        ('... keyword', 'KW.append(K)'),
+        ('... value', 'VL.append(V)'),
+        ('one row per keyword', 'AT = pd.DataFrame(VL, index=KW)'),
+        ('single column Value', "AT.columns = ['Value']"),
+        ('index named Keyword', "AT.index.name = 'Keyword'"),
+        ('the table is returned', 'return AT'),
+    ], ['KW', 'VL', 'K', 'V', 'AT'])
+    fn2 = Fn(cx, 'excel_ui.run_command_line')
+    calls = fn2.calls('run')
+    ok = len(calls) == 1
+    if ok:
+        c = calls[0]
+        got = {k.arg: sym.show(sym.norm(k.value)) for k in c.keywords}
+        A = None
+        for k in c.keywords:
+            if isinstance(k.value, ast.Attribute) and isinstance(k.value.value, ast.Name):
+                A = k.value.value.id
+        want = {'input_path': 'inputpath', 'output_path': 'outputpath', 'verbose': 'verbose', 'plot': 'plot', 'hist_sheet': 'histogram_sheet'}
+        ok = not c.args and got == {k: sym.show(sym.norm('%s.%s' % (A, v))) for k, v in want.items()}
+        # options declared
+        flags = set()
+        for a in fn2.calls():
+            if isinstance(a.func, ast.Attribute) and a.func.attr == 'add_argument':
+                flags |= {x.value for x in a.args if isinstance(x, ast.Constant)}
+        ok = ok and {'--inputpath', '--outputpath', '--verbose', '--plot', '--histogram-sheet'} <= flags
+    fn2.ob('SEQ', 'every command line option is declared and handed to run() under its own name', bool(ok), calls[0] if calls else fn2.ast,
+           key='cli')
+    if calls:
+        fn2.ctx_ob('SEQ', 'run() is called unconditionally', fn2.cfg.stmt_of(calls[0]))
+    return fn
